@@ -26,7 +26,14 @@ RULE = ('seeded random cases per entry point: assign (n frames 0..8, k centers 0
         'trajectory; lengths/indices as list, int64 ndarray or int32 ndarray; every argument snapshotted before/'
         'after, the same ClusterResult partitioned twice; a few inconsistent inputs for the error branch); '
         'partition_list / partition_indices directly; compute_batches; batch_reassign on generated .h5 '
-        'trajectories (2 cases quick, more in thorough). Non-trivial = at least one frame and the entry '
+        'trajectories (a few cases quick, more in thorough). Blind-spot families (tags family:*): sizes past '
+        'narrow integer dtypes (>255 and >65535 centers, frames, trajectories, flat indices); every argument '
+        'as list/tuple/int32/int64 ndarray, labels int8..int64/uint8, distances float32, F-ordered and strided '
+        'data, keyword calls, md.Trajectory frames/centers with md.rmsd; tables and points scaled by 2^+-30 and '
+        'near-ties of relative 2^-20 next to exact ties; degenerate structure (all equidistant, one frame, one '
+        'center, identical frames, a label whose single member sits at the global maximum distance); every '
+        'batch size 0..total+2 for compute_batches and batch sizes on every length boundary for '
+        'batch_reassign. Non-trivial = at least one frame and the entry '
         'point has a real choice to make (k>=2, >=1 label, >=1 center index, >=1 trajectory); distinct by '
         'canonical input.')
 ASSUMPTIONS = [
@@ -51,27 +58,40 @@ DTYPES = ['float64', 'float32', 'int64', 'int32', 'int16', 'int8']
 def frac(x):
     """float -> exact [num, den] (None for +inf)."""
     x = float(x)
-    if np.isinf(x) and x > 0:
+    if x == float('inf'):
         return None
-    f = Fraction(x)
-    return [f.numerator, f.denominator]
+    n, d = x.as_integer_ratio()      # exact, lowest terms
+    return [n, d]
 
 
 def erat_eq(m, x):
     """model ERat (None or [num, den]) equals float x exactly"""
     x = float(x)
     if m is None:
-        return np.isinf(x) and x > 0
-    if not np.isfinite(x):
+        return x == float('inf')
+    if x != x or x in (float('inf'), float('-inf')):
         return False
-    return Fraction(m[0], m[1]) == Fraction(x)
+    n, d = x.as_integer_ratio()
+    return m[0] * d == n * m[1]
 
 
-def close(x, y, tol=1e-9):
+def close(x, y, tol=1e-9, scale=1.0):
+    """equal up to `tol` relative to the natural scale of the data (`scale`; 0 = exact comparison)"""
     x, y = float(x), float(y)
-    if np.isinf(x) or np.isinf(y):
+    if np.isinf(x) or np.isinf(y) or scale == 0:
         return x == y
-    return abs(x - y) <= tol * max(1.0, abs(x), abs(y))
+    return abs(x - y) <= tol * max(scale, abs(x), abs(y))
+
+
+def fam(case):
+    return ['family:' + case['family']] if 'family' in case else []
+
+
+def case_scale(case):
+    """natural scale for float comparisons; 0 (= exact) for the table metric whose oracle is exact"""
+    if case.get('metric') == 'table':
+        return 0
+    return 2.0 ** case.get('scale_exp', 0)
 
 
 def ints(a):
@@ -82,6 +102,8 @@ def as_container(vals, how):
     """python list / int64 ndarray / int32 ndarray ('ndarray' = int64, older corpus files)"""
     if how == 'list':
         return list(vals)
+    if how == 'tuple':
+        return tuple(vals)
     if how == 'int32':
         return np.array(vals, dtype=np.int32)
     return np.array(vals, dtype=np.int64)
@@ -90,7 +112,7 @@ def as_container(vals, how):
 def snapshot(x):
     if isinstance(x, np.ndarray):
         return ('ndarray', str(x.dtype), tuple(x.shape), x.tobytes())
-    return ('list', [v for v in x])
+    return (type(x).__name__, [v for v in x])
 
 
 def call_real(fn, *args, **kw):
@@ -117,6 +139,9 @@ def make_metric(case):
     kind = case['metric']
     if kind == 'table':
         D = np.array(case['D'], dtype=float)
+        if 'P' in case:       # near-ties: relative 2^-20 (~1e-6) perturbations, exact in float64
+            D = D + np.array(case['P'], dtype=float) * 2.0 ** -20
+        D = D * 2.0 ** case.get('scale_exp', 0)      # exact power-of-two scaling
 
         def metric(X, y):
             return D[np.asarray(X)[:, 0].astype(int), int(np.asarray(y)[0])]
@@ -148,7 +173,17 @@ def data_array(rows, case, width=None):
     if case['metric'] == 'table':
         return np.array(rows, dtype=float).reshape(len(rows), 1)
     w = width if width is not None else case['dim']
-    return np.array(rows, dtype=case['dtype']).reshape(len(rows), w)
+    A = np.array(rows, dtype=case['dtype']).reshape(len(rows), w)
+    if case.get('scale_exp') and case['dtype'] in ('float64', 'float32'):
+        A = (A * 2.0 ** case['scale_exp']).astype(case['dtype'])
+    lay = case.get('layout', 'C')
+    if lay == 'F':
+        A = np.asfortranarray(A)
+    elif lay == 'strided' and len(A):
+        big = np.zeros((2 * len(A), w), dtype=A.dtype)
+        big[::2] = A
+        A = big[::2]
+    return A
 
 
 def wrap_centers(C, how):
@@ -187,22 +222,24 @@ def table_json(T):
     return [[frac(v) for v in row] for row in T]
 
 
-def nearest_ok(O, a, d):
+def nearest_ok(O, a, d, scale=1.0):
     """the property's words: every frame has a center at minimal distance and reports exactly it"""
     n, k = O.shape
     for f in range(n):
         m = O[f].min()
         if not (0 <= int(a[f]) < k):
             return 'label %r of frame %d is not a center index' % (a[f], f)
-        if not close(O[f, int(a[f])], m):
+        if not close(O[f, int(a[f])], m, scale=scale):
             return 'frame %d assigned to center %d at distance %r, minimum is %r' % (f, a[f], O[f, int(a[f])], m)
-        if not close(d[f], m):
+        if not close(d[f], m, scale=scale):
             return 'frame %d reports distance %r, minimal distance is %r' % (f, d[f], m)
     return None
 
 
 def centers_ok(a, d, got):
     """per label present (ascending) a member frame of smallest distance"""
+    a = np.asarray(a)
+    d = np.asarray(d, dtype=np.float64)
     labels = sorted(set(ints(a)))
     if len(got) != len(labels):
         return 'got %d center indices for %d labels present' % (len(got), len(labels))
@@ -210,8 +247,8 @@ def centers_ok(a, d, got):
         m = int(m)
         if not (0 <= m < len(a)) or int(a[m]) != lab:
             return 'center index %d is not a member of label %d' % (m, lab)
-        best = min(float(d[f]) for f in range(len(a)) if int(a[f]) == lab)
-        if not close(d[m], best):
+        best = float(d[a == lab].min())
+        if float(d[m]) != best:      # the distances are data: exact comparison
             return 'center index %d of label %d has distance %r, smallest is %r' % (m, lab, d[m], best)
     return None
 
@@ -378,13 +415,252 @@ def gen_reassign(rng, force_first_full=False):
         b = mx
     else:
         b = int(mx + rng.integers(0, 6))
-        if lens[0] == b:
-            b += 1
     n_atoms = int(rng.integers(3, 6))
     k = int(rng.integers(1, 5))
     return {'kind': 'reassign', 'lens': lens, 'batch_size': b, 'n_atoms': n_atoms, 'k': k,
             'centers_as': 'list',
             'coords_seed': int(rng.integers(0, 2 ** 31 - 1))}
+
+
+
+# ----------------------------------------------------------------------------- blind-spot families
+# (size boundaries of narrow integer dtypes, dtype/container variety of every argument, power-of-two
+#  scales and near-ties, degenerate structure, batch sizes on every boundary)
+
+def gen_assign_line(rng, n, k, wrapper, dtype='float64', metric='euclidean'):
+    """k distinct centers on a line, frames sitting on (or next to) chosen centers: labels reach k-1"""
+    picks = rng.integers(0, k, size=n)
+    if n:
+        picks[0] = k - 1
+        picks[-1] = max(k - 2, 0)
+    return {'kind': 'assign', 'family': 'line-n%d-k%d' % (n, k), 'metric': metric, 'dim': 1, 'dtype': dtype,
+            'symmetric': True, 'X': [[int(v)] for v in picks], 'C': [[int(c)] for c in range(k)],
+            'wrapper': wrapper}
+
+
+def gen_assign_scaled(rng):
+    case = gen_assign(rng)
+    r = rng.random()
+    case['family'] = 'scale-near-tie'
+    case['scale_exp'] = int(rng.choice([-30, 30, -10, 20]))
+    if case['metric'] == 'table':
+        if r < 0.7:
+            N = case['N']
+            P = rng.integers(0, 3, size=(N, N))
+            if case['symmetric']:
+                P = np.triu(P) + np.triu(P, 1).T
+            case['P'] = P.tolist()
+    else:
+        case['dtype'] = 'float64' if rng.random() < 0.6 else 'float32'
+    return case
+
+
+def gen_assign_variety(rng):
+    case = gen_assign(rng)
+    case['family'] = 'layout-keyword'
+    if case['metric'] != 'table':
+        case['layout'] = ['F', 'strided', 'C'][int(rng.integers(0, 3))]
+    case['kwargs'] = bool(rng.random() < 0.5)
+    return case
+
+
+def gen_assign_degenerate(rng):
+    """all frames equidistant from all centers / one frame / one center / identical frames"""
+    how = ['equidistant', 'one-frame', 'one-center', 'identical-frames'][int(rng.integers(0, 4))]
+    N = int(rng.integers(1, 6))
+    v = int(rng.integers(0, 4))
+    D = np.full((N, N), v) if how == 'equidistant' else rng.integers(0, 4, size=(N, N))
+    n = 1 if how == 'one-frame' else int(rng.integers(1, 6))
+    k = 1 if how == 'one-center' else int(rng.integers(1, 8))
+    X = [[int(x)] for x in rng.integers(0, N, size=n)]
+    if how == 'identical-frames':
+        X = [X[0]] * n
+    return {'kind': 'assign', 'family': 'degenerate-' + how, 'metric': 'table', 'D': D.tolist(), 'N': N,
+            'symmetric': bool((D == D.T).all()), 'X': X, 'C': [[int(x)] for x in rng.integers(0, N, size=k)],
+            'wrapper': ['list', 'ndarray', 'xyz'][int(rng.integers(0, 3))]}
+
+
+def gen_find_variety(rng, n=None):
+    """narrow / unsigned label dtypes, float32 distances, python lists, scaled distances, near-ties,
+    a label with a single member at the global maximum distance, all distances equal"""
+    n = int(rng.choice([1, 2, 3, 5, 8, 12])) if n is None else n
+    nl = int(rng.integers(1, 5))
+    labels = rng.choice(np.arange(0, 9), size=nl, replace=False)
+    a = [int(v) for v in rng.choice(labels, size=n)]
+    d = [float(v) for v in rng.integers(0, 4, size=n)]
+    case = {'kind': 'find', 'family': 'dtype-scale-degenerate', 'a': a, 'd': d,
+            'a_dtype': ['int64', 'int32', 'int16', 'int8', 'uint8', 'list'][int(rng.integers(0, 6))],
+            'd_dtype': 'float32' if rng.random() < 0.5 else 'float64'}
+    r = rng.random()
+    if r < 0.35 and n >= 2:
+        # one label gets exactly one member, placed at the global maximum distance
+        lone = int(max(labels) + 1)
+        pos = int(rng.integers(0, n))
+        case['a'] = [lone if i == pos else (x if x != lone else int(labels[0])) for i, x in enumerate(a)]
+        case['d'] = [9.0 if i == pos else v for i, v in enumerate(d)]
+        case['family'] = 'single-member-at-global-max'
+    elif r < 0.5:
+        case['d'] = [float(d[0])] * n
+        case['family'] = 'all-equidistant'
+    elif r < 0.8:
+        case['scale_exp'] = int(rng.choice([-30, 30]))
+        if rng.random() < 0.6 and case['d_dtype'] == 'float64':
+            case['P'] = [int(v) for v in rng.integers(0, 3, size=n)]
+        case['family'] = 'scale-near-tie'
+    return case
+
+
+def gen_find_big(rng, n, a_dtype):
+    """more frames than a narrow dtype can index; the minimal-distance member of a label sits late"""
+    nl = int(rng.integers(1, 4))
+    a = rng.integers(0, nl, size=n)
+    d = rng.integers(1, 4, size=n).astype(float)
+    late = rng.integers(max(n - 40, 0), n, size=nl)
+    for lab, pos in enumerate(late):
+        a[pos] = lab
+        d[pos] = 0.0
+    return {'kind': 'find', 'family': 'frames-%d' % n, 'a': [int(v) for v in a], 'd': [float(v) for v in d],
+            'a_dtype': a_dtype, 'd_dtype': 'float64'}
+
+
+def gen_partition_variety(rng):
+    case = gen_partition(rng)
+    case['family'] = 'dtype-container'
+    case['a_dtype'] = ['int64', 'int32', 'int16', 'uint8'][int(rng.integers(0, 4))]
+    case['d_dtype'] = 'float32' if rng.random() < 0.6 else 'float64'
+    case['lens_type'] = ['tuple', 'int32', 'list', 'int64'][int(rng.integers(0, 4))]
+    case['ci_type'] = ['tuple', 'int32', 'list', 'int64'][int(rng.integers(0, 4))]
+    case['kwargs'] = bool(rng.random() < 0.5)
+    return case
+
+
+def gen_partition_big(rng, how):
+    if how == 'many-trajectories':
+        T = int(rng.integers(257, 330))
+        lens = [int(v) for v in rng.integers(1, 4, size=T)]
+        if rng.random() < 0.4:
+            lens = [2] * T
+    else:                       # more than 65535 frames in few trajectories
+        lens = [int(30000 + rng.integers(0, 9)), int(35600 + rng.integers(0, 9)), 1, int(rng.integers(1, 5))]
+    n = sum(lens)
+    starts = np.concatenate([[0], np.cumsum(lens)])[:-1]
+    ci = [int(starts[-1]), int(n - 1), int(starts[len(lens) // 2]), int(starts[-2] + lens[-2] - 1), 0] + \
+        [int(v) for v in rng.integers(max(n - 300, 0), n, size=4)]
+    return {'kind': 'partition', 'family': 'big-' + how, 'lens': lens, 'lens_how': how,
+            'a': [int(v) for v in rng.integers(0, 4, size=n)], 'd': [float(v) / 2 for v in rng.integers(0, 7, size=n)],
+            'ci': ci, 'lens_type': ['list', 'int64', 'int32'][int(rng.integers(0, 3))],
+            'ci_type': ['list', 'int64', 'int32'][int(rng.integers(0, 3))], 'valid': True}
+
+
+def gen_pidx_big(rng, how):
+    c = gen_partition_big(rng, how)
+    return {'kind': 'pidx', 'family': 'big-' + how, 'lens': c['lens'], 'lens_how': how, 'inds': c['ci'] + c['ci'][::-1],
+            'valid': True, 'inds_type': ['list', 'int64', 'int32', 'tuple'][int(rng.integers(0, 4))],
+            'lens_type': ['list', 'int64', 'int32', 'tuple'][int(rng.integers(0, 4))]}
+
+
+def gen_plist_variety(rng):
+    case = gen_plist(rng)
+    case['family'] = 'dtype-container'
+    case['lens_type'] = ['tuple', 'int32', 'int64', 'list'][int(rng.integers(0, 4))]
+    if case['as_array']:
+        case['l_dtype'] = ['int64', 'int32', 'int16', 'float32'][int(rng.integers(0, 4))]
+    else:
+        case['l_type'] = 'tuple' if rng.random() < 0.5 else 'list'
+    return case
+
+
+def gen_batches_boundaries(rng):
+    """one list of lengths, EVERY batch size from 0 to total+2"""
+    T = int(rng.integers(1, 6))
+    lens = [int(v) for v in rng.integers(1, 6, size=T)]
+    return [{'kind': 'batches', 'family': 'every-batch-size', 'lens': lens, 'batch_size': b}
+            for b in range(0, sum(lens) + 3)]
+
+
+def gen_reassign_boundary(rng):
+    """batch size on a boundary of the trajectory lengths (and >= the longest, the code's guard)"""
+    case = gen_reassign(rng)
+    lens = case['lens']
+    cs = np.cumsum(lens).tolist()
+    cands = sorted(set(b for b in [max(lens), max(lens) + 1, lens[0], lens[0] + 1, sum(lens), sum(lens) + 1] +
+                       cs + [c + 1 for c in cs] if b >= max(lens)))
+    case['batch_size'] = int(cands[int(rng.integers(0, len(cands)))])
+    case['family'] = 'batch-size-on-boundary'
+    return case
+
+
+def gen_predict_many_centers(rng):
+    """more than 255 centers: distinct points on a line, k-centers picks k of them"""
+    npts = int(rng.integers(300, 360))
+    k = int(rng.integers(257, 290))
+    pts = rng.permutation(npts)
+    ys = [int(v) for v in rng.integers(0, npts, size=int(rng.integers(1, 12)))]
+    return {'kind': 'predict', 'family': 'centers>255', 'metric': 'euclidean', 'dim': 1, 'symmetric': True,
+            'dtype': ['float64', 'int32', 'int16'][int(rng.integers(0, 3))],
+            'X': [[int(v)] for v in pts], 'Y': [[v] for v in ys], 'k': k, 'est': 'KCenters',
+            'seed': int(rng.integers(0, 2 ** 31 - 1))}
+
+
+def gen_assign_md(rng):
+    return {'kind': 'assign_md', 'family': 'mdtraj-rmsd', 'n': int(rng.integers(1, 5)), 'k': int(rng.integers(1, 7)),
+            'n_atoms': int(rng.integers(4, 7)), 'centers_as': ['trajectory', 'list'][int(rng.integers(0, 2))],
+            'coords_seed': int(rng.integers(0, 2 ** 31 - 1))}
+
+
+def blind_spot_cases(ctx):
+    rng = ctx.rng
+    q = ctx.n
+    out = []
+    # 1. size boundaries
+    big = 300 if ctx.thorough else 24        # frames; the centers always exceed 256
+    for _ in range(q(1, 6)):
+        out.append(gen_assign_line(rng, big, 300, 'ndarray', ['float64', 'int16', 'int32'][int(rng.integers(0, 3))]))
+        out.append(gen_assign_line(rng, min(big, 260), 300, 'xyz', ['float64', 'float32'][int(rng.integers(0, 2))],
+                                   'manhattan'))
+        out.append(gen_assign_line(rng, 5, 260, 'list'))
+    c = gen_assign_line(rng, 3, 66000, 'xyz', 'int32')                   # per-frame branch, labels >= 65536
+    c['model_skip'] = not ctx.thorough
+    out.append(c)
+    if ctx.thorough:
+        out.append(gen_assign_line(rng, 3, 66000, 'ndarray', 'float64'))  # sweep over 66000 centers
+        out.append(gen_assign_line(rng, 66000, 3, 'list', 'float64'))
+    for dt in ('int64', 'int32', 'int16', 'uint8', 'int8'):
+        out.append(gen_find_big(rng, 300, dt))
+    out.append(gen_find_big(rng, 66000, 'int64'))
+    out.append(gen_find_big(rng, 66000, 'int16'))
+    if ctx.thorough:
+        out.append(gen_find_big(rng, 66000, 'int32'))
+        out.append(gen_find_big(rng, 66000, 'uint8'))
+    out += [gen_partition_big(rng, 'many-trajectories') for _ in range(q(2, 20))]
+    for _ in range(q(1, 4)):
+        c = gen_partition_big(rng, 'frames>65535')
+        c['model_skip'] = not ctx.thorough
+        out.append(c)
+    out += [gen_pidx_big(rng, 'many-trajectories') for _ in range(q(2, 20))]
+    out += [gen_pidx_big(rng, 'frames>65535') for _ in range(q(1, 4))]
+    out += [gen_predict_many_centers(rng) for _ in range(q(1, 8))]
+    out.append({'kind': 'batches', 'family': 'many-trajectories',
+                'lens': [int(v) for v in rng.integers(1, 4, size=300)], 'batch_size': int(rng.integers(3, 9))})
+    # 2. dtype / container variety of every argument
+    out += [gen_find_variety(rng) for _ in range(q(250, 4000))]
+    out += [gen_partition_variety(rng) for _ in range(q(200, 3000))]
+    out += [gen_plist_variety(rng) for _ in range(q(100, 1000))]
+    out += [gen_assign_variety(rng) for _ in range(q(200, 3000))]
+    out += [gen_assign_md(rng) for _ in range(q(12, 150))]
+    for c in [gen_pidx(rng) for _ in range(q(100, 1000))]:
+        c.update(family='dtype-container', inds_type=['tuple', 'int32', 'int64', 'list'][int(rng.integers(0, 4))],
+                 lens_type=['tuple', 'int32', 'int64', 'list'][int(rng.integers(0, 4))])
+        out.append(c)
+    # 3. scales and near-ties
+    out += [gen_assign_scaled(rng) for _ in range(q(300, 4000))]
+    # 4. degenerate structure
+    out += [gen_assign_degenerate(rng) for _ in range(q(150, 2000))]
+    # 6. batch sizes on every boundary
+    for _ in range(q(20, 300)):
+        out += gen_batches_boundaries(rng)
+    out += [gen_reassign_boundary(rng) for _ in range(q(3, 60))]
+    return out
 
 
 # ----------------------------------------------------------------------------- per-kind processing
@@ -399,7 +675,10 @@ def do_assign(ctx, case):
     C = data_array(case['C'], case)
     centers = wrap_centers(C, case['wrapper'])
     perframe = case['wrapper'] == 'xyz' and k > n
-    r = call_real(assign_to_nearest_center, X, centers, metric)
+    if case.get('kwargs'):
+        r = call_real(assign_to_nearest_center, distance_method=metric, cluster_centers=centers, trajectory=X)
+    else:
+        r = call_real(assign_to_nearest_center, X, centers, metric)
     if r[0] == 'error':
         ctx.case(case, nontrivial=n >= 1 and k >= 2, tags=['assign', 'assign:raised'])
         ctx.violation('assign_to_nearest_center raised %s (n=%d frames, k=%d centers)' % (r[2], n, k), case)
@@ -410,29 +689,38 @@ def do_assign(ctx, case):
         ctx.violation('assign_to_nearest_center did not return (assignments, distances)', case)
         return None
     T, O = tables(metric, oracle, X, C, perframe)
-    ties = bool(n and k and any((O[f] == O[f].min()).sum() > 1 for f in range(n)))
+    ties = bool(n and k and ((O == O.min(axis=1, keepdims=True)).sum(axis=1) > 1).any())
     ctx.case(case, nontrivial=n >= 1 and k >= 2,
              tags=['assign', 'assign:branch=' + ('perframe' if perframe else 'sweep'),
                    'assign:' + ('k<n' if k < n else 'k=n' if k == n else 'k>n'),
                    'assign:metric=' + case['metric'], 'assign:centers=' + case['wrapper']] +
                   (['assign:ties'] if ties else []) + (['assign:k=0'] if k == 0 else []) +
-                  (['assign:dtype=' + case['dtype']] if 'dtype' in case else []))
+                  (['assign:dtype=' + case['dtype']] if 'dtype' in case else []) + fam(case) +
+                  (['assign:labels>=256'] if n and k > 256 and int(np.max(a)) >= 256 else []) +
+                  (['assign:labels>=65536'] if n and k > 65536 and int(np.max(a)) >= 65536 else []) +
+                  (['assign:scale=2^%d' % case['scale_exp']] if case.get('scale_exp') else []) +
+                  (['assign:near-ties'] if 'P' in case else []) +
+                  (['assign:layout=' + case['layout']] if 'layout' in case else []) +
+                  (['assign:by-keyword'] if case.get('kwargs') else []))
     if not (isinstance(a, np.ndarray) and isinstance(d, np.ndarray) and a.shape == (n,) and d.shape == (n,)
             and np.issubdtype(a.dtype, np.integer) and d.dtype == np.float64):
         ctx.violation('assign_to_nearest_center returned arrays of the wrong shape/dtype', case)
         return None
     if k >= 1:
-        bad = nearest_ok(O, a, d)
+        bad = nearest_ok(O, a, d, case_scale(case))
         if bad:
             # an asymmetric table read in the other orientation = the other branch was taken
             if not case['symmetric']:
                 T2, O2 = tables(metric, oracle, X, C, not perframe)
-                if nearest_ok(O2, a, d) is None:
+                if nearest_ok(O2, a, d, case_scale(case)) is None:
                     ctx.disagreement('assign_to_nearest_center took the other branch (k=%d, n=%d, centers=%s)'
                                      % (k, n, case['wrapper']), case)
                     return None
             ctx.violation('assign_to_nearest_center: ' + bad, case)
             return None
+    if case.get('model_skip'):
+        ctx.tag('model-skipped-assign-k%d' % k)
+        return None
     req = {'op': 'C10.assign', 'n': n, 'k': k, 'has_xyz': case['wrapper'] == 'xyz', 'table': table_json(T)}
 
     def compare(r):
@@ -487,7 +775,8 @@ def do_predict(ctx, case):
     T, O = tables(metric, oracle, Y, C, False)
     ctx.case(case, nontrivial=m >= 1 and k >= 2,
              tags=['predict', 'predict:' + case['est'], 'predict:metric=' + case['metric'],
-                   'predict:' + ('m<k' if m < k else 'm=k' if m == k else 'm>k')])
+                   'predict:' + ('m<k' if m < k else 'm=k' if m == k else 'm>k')] + fam(case) +
+                  (['predict:k>255'] if k > 255 else []))
     if not isinstance(res, ClusterResult):
         ctx.violation('predict did not return a ClusterResult', case)
         return None
@@ -499,7 +788,7 @@ def do_predict(ctx, case):
         ctx.violation('predict returned arrays of the wrong shape', case)
         return None
     if k >= 1:
-        bad = nearest_ok(O, a, d)
+        bad = nearest_ok(O, a, d, case_scale(case))
         if bad:
             ctx.violation('%s.predict: %s' % (case['est'], bad), case)
             return None
@@ -519,35 +808,69 @@ def do_predict(ctx, case):
     return req, compare
 
 
+KEY_FIND_NARROW = 'find-centers-narrow-label-dtype'
+KEY_FIND_LISTS = 'find-centers-python-lists'
+
+
 def do_find(ctx, case):
     from enspara.cluster.util import find_cluster_centers
-    from enspara.exception import DataInvalid
-    a = np.array(case['a'], dtype=int)
-    d = np.array([np.inf if v is None else v for v in case['d']], dtype=float)
-    mismatch = len(a) != len(d)
-    try:
-        got = find_cluster_centers(a, d)
-        out = {'ok': ints(got)}
-    except DataInvalid:
-        out = {'error': 'data-invalid'}
-    except Exception as e:  # noqa
-        out = {'error': type(e).__name__}
+    a_dt, d_dt = case.get('a_dtype', 'int64'), case.get('d_dtype', 'float64')
+    sc = 2.0 ** case.get('scale_exp', 0)
+    a64 = np.array(case['a'], dtype=np.int64)
+    d64 = np.array([np.inf if v is None else v for v in case['d']], dtype=np.float64) * sc
+    if 'P' in case:       # near-ties, relative 2^-20
+        d64 = d64 + np.array(case['P'], dtype=np.float64) * 2.0 ** -20 * sc
+    dd = d64.astype(d_dt)
+    d64 = dd.astype(np.float64)          # the values the code sees (exact in float32 by construction)
+    if a_dt == 'list':
+        a, d = [int(v) for v in a64], [float(v) for v in d64]
+    else:
+        a, d = a64.astype(a_dt), dd
+    mismatch = len(a64) != len(d64)
+    r = call_real(find_cluster_centers, a, d)
+    if r[0] == 'ok':
+        try:
+            out = {'ok': ints(r[1])}
+        except Exception:  # noqa
+            out = {'error': 'not-an-index-array'}
+    else:
+        out = {'error': r[1], 'text': r[2]}
     labels = sorted(set(case['a']))
-    tie = any(sum(1 for f in range(len(a)) if a[f] == lab and not mismatch and
-                  d[f] == min(d[g] for g in range(len(a)) if a[g] == lab)) > 1 for lab in labels)
-    ctx.case(case, nontrivial=len(a) >= 1 and not mismatch,
-             tags=['find', 'find:labels=%d' % len(labels)] + (['find:ties'] if tie else []) +
-                  (['find:length-mismatch'] if mismatch else []) + (['find:inf'] if None in case['d'] else []))
+    tie = single_at_max = False
+    expect = []
+    if not mismatch and len(a64):
+        for lab in labels:
+            mem = np.where(a64 == lab)[0]
+            best = d64[mem].min()
+            expect.append(int(mem[np.argmax(d64[mem] == best)]))
+            tie = tie or int((d64[mem] == best).sum()) > 1
+            single_at_max = single_at_max or (len(mem) == 1 and len(a64) > 1 and d64[mem[0]] == d64.max())
+    ctx.case(case, nontrivial=len(a64) >= 1 and not mismatch,
+             tags=['find', 'find:labels=%d' % min(len(labels), 9), 'find:a_dtype=' + a_dt, 'find:d_dtype=' + d_dt] +
+                  (['find:ties'] if tie else []) + (['find:length-mismatch'] if mismatch else []) +
+                  (['find:inf'] if None in case['d'] else []) + fam(case) +
+                  (['find:single-member-at-global-max'] if single_at_max else []) +
+                  (['find:center-index>=256'] if expect and max(expect) >= 256 else []) +
+                  (['find:center-index>=65536'] if expect and max(expect) >= 65536 else []) +
+                  (['find:scale=2^%d' % case['scale_exp']] if case.get('scale_exp') else []) +
+                  (['find:near-ties'] if 'P' in case else []))
     if not mismatch:
+        key = None
+        if a_dt == 'list':
+            key = KEY_FIND_LISTS
+        elif a_dt != 'int64' and expect and max(expect) > np.iinfo(a_dt).max:
+            key = KEY_FIND_NARROW       # center_inds inherits the labels' dtype
         if 'error' in out:
-            ctx.violation('find_cluster_centers raised %s on valid input' % out['error'], case)
+            ctx.violation('find_cluster_centers raised %s on valid input (labels %s, distances %s)'
+                          % (out.get('text', out['error']), a_dt, d_dt), case, key=key)
             return None
-        bad = centers_ok(a, d, out['ok'])
+        bad = centers_ok(a64, d64, out['ok'])
         if bad:
-            ctx.violation('find_cluster_centers: ' + bad, case)
+            ctx.violation('find_cluster_centers (labels %s, distances %s): %s' % (a_dt, d_dt, bad), case, key=key)
             return None
+    out.pop('text', None)
     req = {'op': 'C10.find_centers', 'assignments': case['a'],
-           'distances': [None if v is None else frac(v) for v in case['d']]}
+           'distances': [frac(v) for v in d64]}
 
     def compare(r):
         if r != out:
@@ -556,16 +879,23 @@ def do_find(ctx, case):
     return req, compare
 
 
-def canon_parts(x, is_float):
+def canon_parts(x, is_float, raw=False):
+    """canonical output incl. the container type; `raw`: plain python numbers (big cases judged by the
+    oracle only), otherwise floats as exact [num, den]"""
     from enspara import ra
-    conv = (lambda v: frac(v)) if is_float else (lambda v: int(v))
+
+    def conv(arr):
+        vals = np.asarray(arr).tolist()
+        if is_float and not raw:
+            return [frac(v) for v in vals]
+        return vals
     if isinstance(x, ra.RaggedArray):
-        return {'type': 'RaggedArray', 'data': [conv(v) for v in x._data],
-                'lengths': ints(x.lengths), 'rows': [[conv(v) for v in row] for row in x._array]}
+        return {'type': 'RaggedArray', 'data': conv(x._data),
+                'lengths': ints(x.lengths), 'rows': [conv(row) for row in x._array]}
     if isinstance(x, np.ndarray):
         if x.ndim != 2:
             return {'type': 'ndarray', 'rows': None, 'ndim': int(x.ndim)}
-        return {'type': 'ndarray', 'rows': [[conv(v) for v in row] for row in x]}
+        return {'type': 'ndarray', 'rows': [conv(row) for row in x]}
     return {'type': type(x).__name__}
 
 
@@ -582,8 +912,8 @@ def exc_kind(e):
 def do_partition(ctx, case):
     from enspara.cluster.util import ClusterResult
     lens = case['lens']
-    a = np.array(case['a'], dtype=int)
-    d = np.array(case['d'], dtype=float)
+    a = np.array(case['a'], dtype=case.get('a_dtype', 'int64'))
+    d = np.array(case['d'], dtype=case.get('d_dtype', 'float64'))      # halves: exact in float32
     ci = as_container(case['ci'], case['ci_type'])
     L = as_container(lens, case['lens_type'])
     centers = object()
@@ -591,13 +921,15 @@ def do_partition(ctx, case):
     snap = (a.tobytes(), d.tobytes())
     snap_ci, snap_L = snapshot(ci), snapshot(L)
 
+    skip_model = bool(case.get('model_skip'))
+
     def canon_result(r):
-        return {'ok': {'assignments': canon_parts(r.assignments, False),
-                       'distances': canon_parts(r.distances, True),
+        return {'ok': {'assignments': canon_parts(r.assignments, False, skip_model),
+                       'distances': canon_parts(r.distances, True, skip_model),
                        'center_indices': [[int(t), int(f)] for t, f in r.center_indices]}}
     try:
         with _Quiet():
-            res = res0.partition(L)
+            res = res0.partition(lengths=L) if case.get('kwargs') else res0.partition(L)
         out = canon_result(res)
     except Exception as e:  # noqa
         res, out = None, {'error': exc_kind(e), 'text': '%s: %s' % (type(e).__name__, str(e)[:200])}
@@ -621,13 +953,20 @@ def do_partition(ctx, case):
             elif snapshot(ci) != snap_ci:
                 preserved = 'the flat center indices were overwritten by the second partition'
     equal = all(x == lens[0] for x in lens)
-    starts = [sum(lens[:t]) for t in range(len(lens))]
-    on_first = any(i in starts for i in case['ci'])
-    on_last = any(i in [s + l - 1 for s, l in zip(starts, lens) if l] for i in case['ci'])
+    starts = [int(v) for v in np.concatenate([[0], np.cumsum(lens)])[:-1]]
+    sset, lset = set(starts), set(s_ + l_ - 1 for s_, l_ in zip(starts, lens) if l_)
+    on_first = any(i in sset for i in case['ci'])
+    on_last = any(i in lset for i in case['ci'])
     ctx.case(case, nontrivial=len(a) >= 1 and case['valid'],
              tags=['partition', 'partition:' + ('square' if equal else 'ragged'),
                    'partition:lens=' + case['lens_how'], 'partition:lens_type=' + case['lens_type'],
-                   'partition:ci_type=' + case['ci_type']] +
+                   'partition:ci_type=' + case['ci_type'],
+                   'partition:a_dtype=' + case.get('a_dtype', 'int64'),
+                   'partition:d_dtype=' + case.get('d_dtype', 'float64')] + fam(case) +
+                  (['partition:trajectories>255'] if len(lens) > 255 else []) +
+                  (['partition:center-index>=256'] if case['ci'] and max(case['ci']) >= 256 else []) +
+                  (['partition:center-index>=65536'] if case['ci'] and max(case['ci']) >= 65536 else []) +
+                  (['partition:by-keyword'] if case.get('kwargs') else []) +
                   (['partition:has-len1'] if 1 in lens else []) +
                   (['partition:center-on-first-frame'] if on_first else []) +
                   (['partition:center-on-last-frame'] if on_last else []) +
@@ -647,12 +986,16 @@ def do_partition(ctx, case):
                 if c.get('rows') is None:
                     what = '%s is not 2-dimensional' % name
                     break
-                rows = [list(r) for r in part] if c['type'] == 'ndarray' else [list(r) for r in part._array]
+                rows = [np.asarray(r) for r in (part if c['type'] == 'ndarray' else part._array)]
                 if [len(r) for r in rows] != list(lens):
-                    what = '%s piece lengths %s != lengths %s' % (name, [len(r) for r in rows], lens)
+                    what = '%s piece lengths %s != lengths %s' % (name, [len(r) for r in rows][:20], lens[:20])
                     break
-                cat = [v for r in rows for v in r]
-                if len(cat) != len(flat) or any(x != y for x, y in zip(cat, flat)):
+                cat = np.concatenate(rows) if rows else np.zeros(0, dtype=flat.dtype)
+                pdt = part.dtype if c['type'] == 'ndarray' else part._data.dtype
+                if len(flat) and pdt != flat.dtype:
+                    what = '%s pieces have dtype %s, the flat array %s' % (name, pdt, flat.dtype)
+                    break
+                if len(cat) != len(flat) or not np.array_equal(cat, flat):
                     what = 'concatenating the pieces of %s does not restore the flat array' % name
                     break
             if what is None and res.centers is not centers:
@@ -677,6 +1020,9 @@ def do_partition(ctx, case):
             ctx.violation('ClusterResult.partition: ' + what, case)
             return None
     out.pop('text', None)
+    if skip_model:
+        ctx.tag('model-skipped-partition-n%d' % len(a))
+        return None
     req = {'op': 'C10.partition', 'assignments': case['a'], 'distances': [frac(v) for v in case['d']],
            'center_indices': case['ci'], 'lens': lens}
 
@@ -690,8 +1036,9 @@ def do_partition(ctx, case):
 def do_plist(ctx, case):
     from enspara.ra.ra import partition_list
     lens, l = case['lens'], case['l']
-    arg = np.array(l, dtype=int) if case['as_array'] else list(l)
-    larg = list(lens)
+    arg = np.array(l, dtype=case.get('l_dtype', 'int64')) if case['as_array'] else \
+        as_container(l, case.get('l_type', 'list'))
+    larg = as_container(lens, case.get('lens_type', 'list'))
     snap = (snapshot(arg), snapshot(larg))
     try:
         got = partition_list(arg, larg)
@@ -700,7 +1047,9 @@ def do_plist(ctx, case):
         out = {'error': exc_kind(e)}
     valid = sum(lens) == len(l)
     ctx.case(case, nontrivial=len(l) >= 1 and valid,
-             tags=['plist', 'plist:lens=' + case['lens_how']] + ([] if valid else ['plist:sum-mismatch']))
+             tags=['plist', 'plist:lens=' + case['lens_how'],
+                   'plist:lens_type=' + case.get('lens_type', 'list')] + fam(case) +
+                  ([] if valid else ['plist:sum-mismatch']))
     if valid:
         if 'error' in out:
             ctx.violation('partition_list raised %s on consistent input' % out['error'], case)
@@ -727,9 +1076,11 @@ def do_pidx(ctx, case):
     lt = case.get('lens_type', 'int64' if case.get('as_array') else 'list')
     arg, larg = as_container(inds, it), as_container(lens, lt)
     snap = (snapshot(arg), snapshot(larg))
-    starts = [sum(lens[:t]) for t in range(len(lens))]
+    starts = [int(v) for v in np.concatenate([[0], np.cumsum(lens)])[:-1]]
     ctx.case(case, nontrivial=len(inds) >= 1 and case['valid'],
              tags=['pidx', 'pidx:lens=' + case['lens_how'], 'pidx:inds_type=' + it, 'pidx:lens_type=' + lt] +
+                  fam(case) + (['pidx:trajectories>255'] if len(lens) > 255 else []) +
+                  (['pidx:index>=65536'] if inds and max(inds) >= 65536 else []) +
                   ([] if case['valid'] else ['pidx:out-of-range']))
 
     def canon(got):
@@ -784,7 +1135,10 @@ def do_batches(ctx, case):
         return None
     out = {'ok': [ints(x) for x in r[1]]}
     ctx.case(case, nontrivial=len(lens) >= 1,
-             tags=['batches', 'batches:n=%d' % len(out['ok'])] +
+             tags=['batches', 'batches:n=%d' % min(len(out['ok']), 9)] + fam(case) +
+                  (['batches:trajectories>255'] if len(lens) > 255 else []) +
+                  (['batches:size-on-prefix-sum'] if b in set(np.cumsum(lens).tolist()) else []) +
+                  (['batches:size-on-prefix-sum+1'] if (b - 1) in set(np.cumsum(lens).tolist()) else []) +
                   (['batches:first-empty'] if lens and not out['ok'][0] else []))
     flat = [t for x in out['ok'] for t in x]
     if flat != list(range(len(lens))):
@@ -836,7 +1190,13 @@ def do_reassign(ctx, case):
             return None
         first_full = lens[0] >= b
         ctx.case(case, nontrivial=True,
-                 tags=['reassign', 'reassign:centers=' + case['centers_as'],
+                 tags=['reassign', 'reassign:centers=' + case['centers_as']] + fam(case) +
+                      (['reassign:size=max-length'] if b == max(lens) else []) +
+                      (['reassign:size=total'] if b == sum(lens) else []) +
+                      (['reassign:size=total+1'] if b == sum(lens) + 1 else []) +
+                      (['reassign:size-on-prefix-sum'] if b in set(np.cumsum(lens).tolist()) else []) +
+                      (['reassign:size-on-prefix-sum+1'] if (b - 1) in set(np.cumsum(lens).tolist()) else []) +
+                      [
                        'reassign:batches=%d' % len(util.compute_batches(lens, b))] +
                       (['reassign:first-trajectory-fills-batch'] if first_full else []))
         try:
@@ -885,7 +1245,62 @@ def do_reassign(ctx, case):
         shutil.rmtree(tmp, ignore_errors=True)
 
 
-DO = {'assign': do_assign, 'predict': do_predict, 'find': do_find, 'partition': do_partition,
+def do_assign_md(ctx, case):
+    """md.Trajectory frames and centers with md.rmsd (centers as md.Trajectory -> `.xyz` -> per-frame
+    branch when they outnumber the frames; as a list of one-frame trajectories -> sweep)"""
+    import mdtraj as md
+    from enspara.cluster.util import assign_to_nearest_center
+    rng = np.random.default_rng(case['coords_seed'])
+    n, k, n_atoms = case['n'], case['k'], case['n_atoms']
+    top = md.Topology()
+    ch = top.add_chain()
+    for _ in range(n_atoms):
+        top.add_atom('CA', md.element.carbon, top.add_residue('ALA', ch))
+    xyz = (rng.integers(-8, 9, size=(n, n_atoms, 3)) / 4.0).astype(np.float32)
+    cxyz = (rng.integers(-8, 9, size=(k, n_atoms, 3)) / 4.0).astype(np.float32)
+    trj = md.Trajectory(xyz.copy(), top)
+    ctrj = md.Trajectory(cxyz.copy(), top)
+    centers = ctrj if case['centers_as'] == 'trajectory' else [ctrj.slice(i, copy=True) for i in range(k)]
+    perframe = case['centers_as'] == 'trajectory' and k > n
+    ctx.case(case, nontrivial=k >= 2,
+             tags=['assign_md', 'assign_md:centers=' + case['centers_as'],
+                   'assign_md:branch=' + ('perframe' if perframe else 'sweep')] + fam(case))
+    r = call_real(assign_to_nearest_center, trj, centers, md.rmsd)
+    if r[0] == 'error':
+        ctx.violation('assign_to_nearest_center(md.Trajectory, %s of centers, md.rmsd) raised %s'
+                      % (case['centers_as'], r[2]), case)
+        return None
+    a, d = r[1]
+    # oracle: one md.rmsd call per (frame, center) pair on fresh one-frame trajectories
+    O = np.array([[float(md.rmsd(md.Trajectory(xyz[f:f + 1].copy(), top), md.Trajectory(cxyz[c:c + 1].copy(), top))[0])
+                   for c in range(k)] for f in range(n)])
+    for f in range(n):
+        m = O[f].min()
+        if not (0 <= int(a[f]) < k) or abs(O[f, int(a[f])] - m) > 1e-5 or abs(float(d[f]) - m) > 1e-5:
+            ctx.violation('assign_to_nearest_center with md.rmsd: frame %d label %d distance %r, minimal distance %r'
+                          % (f, a[f], d[f], m), case)
+            return None
+    # exact table for the model, in the orientation the branch uses
+    if perframe:
+        T = np.stack([md.rmsd(ctrj, trj[f]) for f in range(n)], axis=0).astype(np.float64)
+    else:
+        T = np.stack([md.rmsd(trj, ctrj[c]) for c in range(k)], axis=1).astype(np.float64)
+    srt = np.sort(T, axis=1)
+    if any(T[f, int(a[f])] != d[f] for f in range(n)) or (k > 1 and bool((srt[:, 1] - srt[:, 0] <= 1e-5).any())):
+        # md.rmsd is not bitwise reproducible from call to call: a float near-tie cannot be replayed
+        ctx.skip('assign_md: float near-tie or rmsd floats differ between two identical calls')
+        return None
+    req = {'op': 'C10.assign', 'n': n, 'k': k, 'has_xyz': case['centers_as'] == 'trajectory', 'table': table_json(T)}
+
+    def compare(r):
+        ok = 'ok' in r and r['ok']['labels'] == ints(a) and all(erat_eq(m, x) for m, x in zip(r['ok']['dists'], d))
+        if not ok:
+            ctx.disagreement('Model.Assign.assignNearest vs assign_to_nearest_center (md.rmsd)',
+                             dict(case, model=r, impl={'labels': ints(a), 'dists': [frac(x) for x in d]}))
+    return req, compare
+
+
+DO = {'assign_md': do_assign_md, 'assign': do_assign, 'predict': do_predict, 'find': do_find, 'partition': do_partition,
       'plist': do_plist, 'pidx': do_pidx, 'batches': do_batches, 'reassign': do_reassign}
 
 
@@ -895,7 +1310,7 @@ def process(ctx, cases):
     from threadpoolctl import threadpool_limits
     import enspara.geometry.libdist  # noqa: F401  (load libgomp before limiting it)
     pending = []
-    with threadpool_limits(limits=1, user_api='openmp'):
+    with threadpool_limits(limits=1):      # OpenMP kernels and BLAS alike
         for case in cases:
             try:
                 r = DO[case['kind']](ctx, case)
@@ -959,16 +1374,17 @@ def fixed_cases():
 def run(ctx):
     rng = ctx.rng
     cases = fixed_cases()
-    cases += [gen_assign(rng) for _ in range(ctx.n(4000, 40000))]
-    cases += [gen_predict(rng) for _ in range(ctx.n(800, 8000))]
-    cases += [gen_find(rng) for _ in range(ctx.n(1500, 15000))]
-    cases += [gen_partition(rng) for _ in range(ctx.n(2500, 25000))]
-    cases += [gen_plist(rng) for _ in range(ctx.n(800, 8000))]
-    cases += [gen_pidx(rng) for _ in range(ctx.n(800, 8000))]
-    cases += [gen_batches(rng) for _ in range(ctx.n(1000, 10000))]
+    cases += [gen_assign(rng) for _ in range(ctx.n(2500, 40000))]
+    cases += [gen_predict(rng) for _ in range(ctx.n(500, 8000))]
+    cases += [gen_find(rng) for _ in range(ctx.n(1000, 15000))]
+    cases += [gen_partition(rng) for _ in range(ctx.n(1500, 25000))]
+    cases += [gen_plist(rng) for _ in range(ctx.n(500, 8000))]
+    cases += [gen_pidx(rng) for _ in range(ctx.n(500, 8000))]
+    cases += [gen_batches(rng) for _ in range(ctx.n(600, 10000))]
     # batch_reassign on generated .h5 trajectories: slow (process pools), few cases
-    cases += [gen_reassign(rng) for _ in range(ctx.n(6, 150))]
-    cases += [gen_reassign(rng, force_first_full=True) for _ in range(ctx.n(2, 10))]
+    cases += [gen_reassign(rng) for _ in range(ctx.n(3, 150))]
+    cases += [gen_reassign(rng, force_first_full=True) for _ in range(ctx.n(1, 10))]
+    cases += blind_spot_cases(ctx)
     process(ctx, cases)
 
 
